@@ -1,9 +1,12 @@
 import PrologVerif.Driver.Common
 import PrologVerif.Driver.C18
+import PrologVerif.Driver.C11
 open PrologVerif PrologVerif.Driver
 
 def handlers : List (String × Handler) :=
-  [ ("c18.hist", C18.handler) ]
+  [ ("c18.hist", C18.handler),
+    ("c11.collect", C11.handler),
+    ("c11.collect.pinned", C11.handlerPinned) ]
 
 partial def loop (h : IO.FS.Stream) (out : IO.FS.Stream) (f : Handler) : IO Unit := do
   let line ← h.getLine
